@@ -852,3 +852,43 @@ def rule_ag4(ctx: Ctx) -> RuleResult:
             r.ob(bool(used) or bool(fwd), lambda: Finding("AG-4", "%s::%s{key_mapper}" % (rel, name), m.where(fn), "%s ignores its key_mapper" % name))
     r.require_instances(9)
     return r
+
+# what the plain arm of each dual-mode operator is on the pinned tree (confirmed by reading; the sequence and promptness rules rely on the
+# behaviour of exactly these: RxPY's take completes with its last item, RxPY's flat_map schedules, the repository's twins do not)
+PLAIN_ARMS = {
+    ("rxsci/data/to_list.py", "to_list"): "rx.operators.to_list",
+    ("rxsci/operators/do_action.py", "do_action"): "rx.operators.do_action",
+    ("rxsci/operators/filter.py", "filter"): "rx.operators.filter",
+    ("rxsci/operators/first.py", "first"): "rx.operators.first",
+    ("rxsci/operators/flat_map.py", "flat_map"): "rxsci.operators.flat_map.flat_map_obs",
+    ("rxsci/operators/last.py", "last"): "rx.operators.last",
+    ("rxsci/operators/map.py", "map"): "rx.operators.map",
+    ("rxsci/operators/scan.py", "scan"): "rxsci.operators.scan.scan_obs",
+    ("rxsci/operators/take.py", "take"): "rx.operators.take",
+}
+
+
+def rule_ag8(ctx: Ctx) -> RuleResult:
+    """AG-8: the plain arm of a dual-mode operator is the implementation the rules know.  What an RxPY operator does (when it completes,
+    whether it schedules) is library behaviour the rules take from reading RxPY, per operator; a plain arm that is some other
+    implementation is not covered by that reading: the run cannot decide (ANALYSIS-ERROR), it is not a finding."""
+    r = RuleResult("AG-8", "the plain arm of each dual-mode operator is the implementation confirmed on the pinned tree (else the run cannot decide)")
+    prog = ctx.program
+    for (rel, name), want in sorted(PLAIN_ARMS.items()):
+        if ctx.scope is not None and rel not in ctx.scope:
+            continue
+        m, fn = ctx.function(rel, name)
+        r.instances += 1
+        for d in dispatch_sites(prog, m, fn):
+            pc = d.plain_call
+            if pc is None:
+                r.ob(True)        # the arm selects or applies its implementation in a form AG-1 / AG-2 read; nothing to compare here
+                continue
+            ref = prog.resolve_dotted(m, pc[0])
+            got = ref[1] if ref and isinstance(ref[1], str) else ("%s.%s" % (ref[1].name, pc[0].split(".")[-1]) if ref and len(ref) > 1 and hasattr(ref[1], "name") else pc[0])
+            if got != want:
+                raise AnalysisError("%s: the plain arm of %s is %s; the rules know the behaviour of %s (when it emits and completes), not of this one" % (
+                    m.where(d.node), name, got, want))
+            r.ob(True)
+    r.require_instances(1)
+    return r
